@@ -7,6 +7,7 @@ and queues the other.  See DESIGN.md section 2.2.
 """
 import base64
 import sys
+import os
 import time
 
 import z3
@@ -154,7 +155,11 @@ class Exec:
             self.affine = affine.Normalizer()
         self.pinned = None        # concrete replay of nondets (translator validation)
         self.stats = dict(paths=0, instrs=0, queries=0, solver_s=0.0, obligations=0, discharged=0,
-                          inconclusive=0, cuts=0)
+                          inconclusive=0, cuts=0, x_queries=0, x_z3old_agree=0, x_z3old_unknown=0,
+                          x_cvc5_agree=0, x_cvc5_unknown=0, x_disagree=0)
+        # second-solver cross-check: the first few unsat obligations seen by this executor are re-decided by the
+        # system z3 4.8.12 and by cvc5 from their SMT-LIB2 text (VERIF_XCHECK = queries per executor, 0 = off)
+        self.xcheck_left = int(os.environ.get('VERIF_XCHECK', '0') or 0)
         self.results = []         # violations / inconclusives
         self.viol_seen = set()
         self.fn_used = {}
@@ -384,6 +389,9 @@ class Exec:
                 model = s.model()
         if r == z3.unsat:
             self.stats['discharged'] += 1
+            if self.xcheck_left > 0:
+                self.xcheck_left -= 1
+                self.cross_check(neg, kind, where, msg)
             if len(self.samples) < 6:
                 self.samples.append({'obligation': kind, 'at': where, 'msg': msg, 'verdict': 'unsat',
                                      'path_decisions': len(self.decisions)})
@@ -393,6 +401,39 @@ class Exec:
         else:
             self.violation(kind, where, msg, model)
         self.add(cond)   # continue on the non-violating side
+
+    def cross_check(self, neg, kind, where, msg):
+        """re-decide an unsat obligation with two other solvers from its SMT-LIB2 text; a 'sat' answer is a
+        disagreement and makes the run inconclusive"""
+        import subprocess
+        s2 = z3.Solver()
+        for c in self.pc:
+            s2.add(c)
+        s2.add(neg)
+        try:
+            txt = s2.to_smt2()
+        except Exception:
+            return
+        self.stats['x_queries'] += 1
+        for name, cmd, pre in (('z3old', ['/usr/bin/z3', '-in', '-T:20'], ''),
+                               ('cvc5', ['/usr/bin/cvc5', '--lang=smt2', '--tlimit=20000'], '(set-logic ALL)\n')):
+            try:
+                out = subprocess.run(cmd, input=pre + txt, capture_output=True, text=True, timeout=40).stdout
+            except Exception:
+                out = 'unknown'
+            lines = [l.strip() for l in out.split('\n') if l.strip()]
+            verdict = lines[0] if lines else 'unknown'
+            if '(error' in out:
+                verdict = 'unknown'     # an error line makes the answer inconclusive, whatever else was printed
+            if verdict == 'unsat':
+                self.stats['x_%s_agree' % name] += 1
+            elif verdict == 'sat':
+                self.stats['x_disagree'] += 1
+                self.stats['inconclusive'] += 1
+                self.results.append(dict(status='inconclusive', kind='solver-disagreement', where=where,
+                                         msg='%s answers sat where z3 %s answers unsat: %s' % (name, z3.get_version_string(), msg)))
+            else:
+                self.stats['x_%s_unknown' % name] += 1
 
     def model_or_none(self):
         r = self.check()
